@@ -747,7 +747,7 @@ def judge_and_report(ctx, recs, D):
 
 def run(ctx):
     q = ctx.quick
-    counts = dict(cls=8, num=10, bnd=4, inv=3, tmp=10, tobj=4, tinv=3) if q else dict(cls=80, num=100, bnd=30, inv=20, tmp=90, tobj=40, tinv=20)
+    counts = dict(cls=8, num=10, bnd=4, inv=3, tmp=10, tobj=4, tinv=3) if q else dict(cls=50, num=60, bnd=20, inv=14, tmp=60, tobj=24, tinv=12)
     D = 3 if q else 4
     k = 3 if q else 5
     limit = 150 if q else 400
